@@ -82,6 +82,11 @@ def h12_consume_mem(S):
 def h12_step(S):
     """TTL base after a retry (unchanged) and after a reschedule (restarted)."""
     o = process_step(S, policy_kind=1, ttl=True)
+    if o.has_ttl and o.calls and o.calls[0]["op"] == "nack":
+        # the run itself was within the time-to-live (it was delivered): dead-lettering now can only mean "failed, no retry left, not recurring"
+        S.cover("dead-lettered-by-the-report")
+        S.check("dead-lettered-only-for-an-exhausted-one-off-failure", all_of(o.fail, neg(o.k < o.N)) if not o.recurring else False,
+                info="the report dead-lettered a message that was to be retried or rescheduled")
     if not o.has_ttl or not o.calls or o.calls[0]["op"] != "requeue":
         S.cover("no-ttl-or-terminal")
         if o.delivered is None and o.calls and o.calls[0]["op"] == "requeue":
